@@ -407,6 +407,34 @@ pub(crate) fn build_app_with_workspace_root_and_provider(
     )
 }
 
+/// Verification only: the application router plus one registered task stream whose frames are
+/// produced by the caller through the real `TaskEmitter` (several concurrent producers).
+#[cfg(rip_verif)]
+pub(crate) fn verif_build_app_with_task_driver(
+    data_dir: std::path::PathBuf,
+    workspace_root: std::path::PathBuf,
+) -> (Router, crate::tasks::verif_hooks::TaskStreamDriver) {
+    let (router, openapi_json) = build_openapi_router();
+    let engine =
+        Arc::new(SessionEngine::new(data_dir, workspace_root, None).expect("session engine"));
+    let (handle, driver) = crate::tasks::verif_hooks::TaskStreamDriver::new(&engine.tasks());
+    let mut tasks = HashMap::new();
+    tasks.insert(handle.task_id.clone(), handle);
+    let state = AppState {
+        sessions: Arc::new(Mutex::new(HashMap::new())),
+        tasks: Arc::new(Mutex::new(tasks)),
+        engine,
+        openapi_json: Arc::new(openapi_json),
+        allow_pty_tasks: false,
+    };
+    (
+        router
+            .route("/openapi.json", get(openapi_spec))
+            .with_state(state),
+        driver,
+    )
+}
+
 pub(crate) fn build_app_with_workspace_root_and_provider_and_task_policy(
     data_dir: std::path::PathBuf,
     workspace_root: std::path::PathBuf,
